@@ -282,7 +282,13 @@ func runSync(r *run) error {
 			if t == 2 {
 				for _, f := range files {
 					if strings.HasSuffix(f.Path, "big-over-unrelated.bin") {
-						prior = append(prior, nodeSpec{Path: f.Path, Type: "f", Data: g.bytes(100000), Mode: 0o644, Mtime: f.Mtime - 5})
+						var kept treeSpec
+						for _, p := range prior {
+							if p.Path != f.Path {
+								kept = append(kept, p)
+							}
+						}
+						prior = append(kept, nodeSpec{Path: f.Path, Type: "f", Data: g.bytes(100000), Mode: 0o644, Mtime: f.Mtime - 5})
 						kinds[f.Path] = "unrelated"
 					}
 				}
